@@ -402,3 +402,39 @@ Definition infer_tables_ok : bool :=
   && forallb (fun c => negb (is_ws c)) (inf_generic_name ++ [inf_generic_open; inf_generic_close])
   (* str_to_bool: "True" -> True, "False" -> False *)
   && str_to_bool s_True && negb (str_to_bool s_False).
+
+(* ---- the family at full strength: "f=v carries a default" read literally, i.e. WITHOUT the
+   restriction that the default has no header separator (a period).  Everything else as in
+   [leaf_ok]/[wf_sty]/[wf_schema].  The headline theorem is decided for this family in
+   props/C18.v (it fails on the tree whose model_from_headers_rec looks for the header
+   separator in the whole header, annotations included: finding default-contains-dot). *)
+Definition leaf_ok_full (l : leaf) : bool :=
+  match l with
+  | LStr e (Some d) => stripped d && (e || no_char inf_ann_sep d)
+  | LFloat (Some d) => is_float_lit d && stripped d && no_char inf_ann_sep d && no_char inf_dflt_sep d
+  | _ => true
+  end.
+
+Fixpoint wf_sty_full (s : sty) : bool :=
+  match s with
+  | SLeaf p l => pads_ok p && leaf_ok_full l
+  | SSpread es =>
+    nonempty es
+    && (forallb is_leafb es || forallb (fun e => negb (is_leafb e)) es)
+    && forallb wf_sty_full es
+  | SRec fs =>
+    nonempty fs
+    && forallb (fun nt : str * sty => field_name_ok (fst nt)) fs
+    && nodup_names (map fst fs)
+    && forallb (fun nt : str * sty => wf_sty_full (snd nt)) fs
+  end.
+
+Definition wf_schema_full (sc : schema) : bool :=
+  forallb (fun nt : str * sty => field_name_ok (fst nt)) sc
+  && nodup_names (map fst sc)
+  && forallb (fun nt : str * sty => wf_sty_full (snd nt)) sc.
+
+(* ---- contentindexparser._get_new_data_sheet without a data_model: the row model of a data
+   sheet is model_from_headers(sheet_name, data_table.headers); the rows are not an argument *)
+Record data_table := mk_table { dt_headers : list str; dt_rows : list (list str) }.
+Definition sheet_model (t : data_table) : result ierr ty := model_from_headers (dt_headers t).
